@@ -119,6 +119,8 @@ func chanUses(p *Prog, f *types.Var) []chanUse {
 
 func c18(r *Report, s *Sem) {
 	p := r.P
+	R12 := r.Rule("R12", "stops its own listener and no other: a listener that registers itself in a package-level table removes, in Close, the entry under a field that its Listen stored from the very key it registered under", 1)
+	defer checkUnregistersWhatItRegistered(r, s, R12)
 	defer r.Import(s, "C15", "D", "R11", "closing mid-handshake leaves no goroutine behind: a cancelled TLS upgrade is aborted at once — the watcher forces the deadline on the connection object the handshake runs on, and the fallback deadline is bounded by the poll interval", 1, "TLS")
 	R1 := r.Rule("R1", "close discipline: for every channel-typed field of Server and of the transport listeners that has a close site, every send site is in the function that closes it (no foreign sender can hit a closed channel), and — for channels carrying values — every receive uses the comma-ok form or range (a closed queue never yields a nil value)", 6)
 	R2 := r.Rule("R2", "Server.Close cancels the shared context and reaches every listener's Close on all paths after the not-listening guard; ListenAndServe maps the context's error to the server-closed error", 3)
